@@ -58,17 +58,18 @@ def main():
         "setup_cmd": "./setup.sh",
         "hooks": {
             "guard": "cargo feature verif_hooks (off by default)",
-            "enable": "the harness depends on twofloat = { path = \"/repo\", features = [\"serde\", \"verif_hooks\"] }; every ./check rebuilds it from /repo's current working tree",
+            "enable": "every ./check copies /repo's current working tree to work/twofloat_hooked (package renamed) and builds THAT copy with features [serde, verif_hooks]; it is used only for is_valid() of arbitrary word pairs (C07), the internal fma (C11) and the hooks-neutrality differential (C11). All other observations use twofloat = { path = \"/repo\", features = [\"serde\"] } built WITHOUT the guard, i.e. the crate as users compile it, rebuilt from /repo's working tree on every run",
             "baseline_off_cmd": "cd /repo && cargo test --workspace --no-fail-fast --offline",
             "source_commits": HOOK_COMMITS,
             "add_only": True,
         },
         "engines": [
-            {"name": "tfcheck", "path": "/verif/harness/tfcheck", "serves_properties": sorted(CHECKS), "kind_free_text": "proptest 1.11 TestRunner over u64 choice sequences decoded by constructive generators; exact dyadic + 384-bit elementary-function oracle (harness/oracle); replay files in replays/<id>/"},
+            {"name": "fuzz", "path": "/verif/fuzz", "serves_properties": ["C01", "C07", "C08", "C09", "C20"], "kind_free_text": "cargo-fuzz 0.13 / libFuzzer targets (thorough tier only): bytes -> the same u64 choice words -> the same evaluators as tfcheck; seeded and empty corpus, fixed -runs"},
+            {"name": "tfcheck", "path": "/verif/harness/tfcheck", "serves_properties": sorted(CHECKS), "kind_free_text": "proptest 1.11 TestRunner over u64 choice sequences decoded by constructive generators, followed by a targeted-search (hill-climbing on log2(error/bound)) phase; exact dyadic + 384-bit elementary-function oracle (harness/oracle); replay files in replays/<id>/"},
         ],
         "checks": checks,
         "not_applicable": na,
-        "notes": "Genuine defects found on the pinned tree were repaired by fix: commits in /repo and are listed in known_findings.json (status fixed); see DESIGN.md section 6.",
+        "notes": "Genuine defects found on the pinned tree (14) were repaired by fix: commits in /repo and are listed in known_findings.json (status fixed); four sign-of-zero findings of C10 are listed there with status known (KNOWN-FINDING lines, exit 0); see DESIGN.md section 6. seeded/ holds 118 independently written breaking changes with which the checks were exercised (DESIGN.md section 11).",
     }
     json.dump(m, open("MANIFEST.json", "w"), indent=1)
     print("checks:", len(checks), "not_applicable:", len(na))
